@@ -2187,6 +2187,21 @@ static program_t *epilog ()
   generate_final_program (0);
   UPDATE_PROGRAM_SIZE;
 
+  /* Function addresses and the program size are 16 bits wide.  A larger program used to be
+   * assembled anyway, with the size cut and the addresses of its later functions wrapped
+   * around: calling one of them ran the bytes of another function. */
+  if (CURRENT_PROGRAM_SIZE > USHRT_MAX)
+    {
+      yyerror ("Program too large (more than 65535 bytes of code)");
+      if (pragmas & PRAGMA_WARNINGS)
+        remove_overload_warnings (0);
+      clean_parser ();
+      end_new_file ();
+      free_string (current_file);
+      current_file = 0;
+      return 0;
+    }
+
   /*
    * If functions are undefined, replace them by definitions done
    * by inheritance. All explicit "name::func" are already resolved.
